@@ -169,6 +169,28 @@ for _pid, (_t, _x) in ROUND2.items():
         _tech, _text, _ref = CLAIMS[_pid]
         CLAIMS[_pid] = (_tech + _t, _text + " " + _x, _ref)
 
+# clauses added after the third round (appended after ROUND2)
+ROUND3 = {
+ "C02": ("", "Round 3: a message is stored after a block-bounded Done only behind an end-of-file test (R2.9); last_byte selects last elements (R2.10); insert/remove on the range index build the same range (R2.11)."),
+ "C03": ("", "Round 3: the lower-bound binary search never tests datetimes for equality (R3.6); each bound reaches the predicate written for it (R3.7)."),
+ "C04": ("; interpretation of small enum predicates over const-table rows", "Round 3: the --tz-offset parser's structural rules are lifted (R4.8)."),
+ "C05": ("", "Round 3: sibling decoders size the block at the read cursor (R5.8)."),
+ "C06": ("", "Round 3: a source whose thread cannot be spawned is un-registered (R6.8); ties between sources are broken deterministically (R6.9, lift of C01 R1.1/R1.4)."),
+ "C07": ("", "Round 3: buffers are sized by the block size, never by a declared size (R7.10); member names and header times are sanitised before panicking std APIs (R7.11)."),
+ "C08": ("", "Round 3: strict too-small test (R8.8); sibling arms agree on index ranges (R8.9); string bytes rendered bit for bit (R8.10)."),
+ "C09": ("", "Round 3: a bound before 1970 does not wrap on the unsigned journal clock (R9.8)."),
+ "C11": ("; MIR interpretation of dt_pattern_has_year over the table's (year, epoch) combinations", "Round 3: the missing-year pass runs exactly for notations that do not determine the year (R11.8)."),
+ "C12": ("; abstract enumeration of the highlight code over all weak orderings of four indexes", "Round 3: lifts of R5.2, R5.8 and of the highlight enumeration R13.8 (R12.7)."),
+ "C13": ("; abstract enumeration of the highlight code over all weak orderings of (at, at_end, dt_beg, dt_end)", "Round 3: the datetime highlight is decided for every ordering of part and datetime bounds (R13.8); separator provenance (R13.9); write order (R13.10, lift of R2.4); -d is rendered once when parsed (R13.11)."),
+ "C14": ("", "Round 3: the sign reaches every additive term of hand-written offset arithmetic (R14.8)."),
+ "C16": ("", "Round 3: the junk sets are the documented ones at both ends (R16.5); all fallbacks map unparseable_are_text alike (R16.8)."),
+ "C17": ("", "Round 3: the release pass walks the whole index (R17.6); only year-less notations take the whole-file pass (R17.7); R17.5 withdrawn (false alarm after repair F20)."),
+}
+for _pid, (_t, _x) in ROUND3.items():
+    if _pid in CLAIMS:
+        _tech, _text, _ref = CLAIMS[_pid]
+        CLAIMS[_pid] = (_tech + _t, _text + " " + _x, _ref)
+
 NA_REASON = {}
 
 checks = []
